@@ -9,6 +9,29 @@ HERE = os.path.dirname(os.path.dirname(os.path.abspath(__file__)))
 sys.path.insert(0, HERE)
 
 CLAIMED = {
+    'C17': dict(
+        category='other',
+        text='Decides the fact the property names as deciding: per record exactly one write-class call on a '
+             'descriptor opened O_APPEND without O_TRUNC. All CFG paths of the single writer (file, devtty, devnull '
+             'funnel into it) are counted from the successful open to the exit; the write must cover the whole '
+             'assembled record (length derived from the message length); a stdio emission only counts as one write '
+             'on a stream with a provably record-sized buffer.',
+        design_ref='DESIGN.md §5 C17',
+        note='Assumes the kernel appends a single O_APPEND write indivisibly (as the property does). The defect found '
+             'on the pinned tree (libc splitting records > BUFSIZ) was replayed with strace and repaired.',
+        technique='static analysis: open-flag constant folding + min/max write-effect path counting on the CFG'),
+    'C20': dict(
+        category='other',
+        text='Typestate check of the atomic-replace protocol on the only function that may modify ld.so.preload: the '
+             'live path is never opened writable/truncating anywhere in the CLI; the only mutation is rename(temp, live) '
+             'with temp = live path + constant suffix; on every path to the rename: exclusive create -> write -> fflush '
+             '-> fsync -> close in that order (forward dataflow, meet = min stage), each result tested with the rename '
+             'unreachable from the failure outcome; the temp is unlinked on every path that ends without a successful '
+             'rename. Crash points are quantified away by the protocol.',
+        design_ref='DESIGN.md §5 C20',
+        note='Assumes rename(2) within a directory is atomic. The defect on the pinned tree (fopen "w+") was replayed '
+             '(kill at the write leaves a 0-byte file) and repaired.',
+        technique='static analysis: typestate/ordering dataflow on the CFG + branch-polarity analysis of result tests'),
     'C01': dict(
         category='other',
         text='Static path and call-graph analysis of the two interposers: one indirect call whose callee is only '
